@@ -1,10 +1,14 @@
 #!/bin/bash
-# extract the model and build the OCaml driver: build.sh <output binary>
+# extract the model (one OCaml module per Extract_<area>.v) and build the driver: build.sh <output binary>
 set -eu
 cd "$(dirname "$0")"
 out="$1"
-rm -f model.ml model.mli
-coqc -Q ../theories Grits Extract.v >/dev/null
-rm -f Extract.vo Extract.glob Extract.vok Extract.vos .Extract.aux
-ocamlfind ocamlopt -O3 -w -a -package str model.mli model.ml driver.ml -o "$out" 2>/dev/null || ocamlfind ocamlopt -w -a model.mli model.ml driver.ml -o "$out"
+rm -f model_*.ml model_*.mli
+for f in Extract_*.v; do
+  coqc -Q ../theories Grits "$f" >/dev/null
+  b="${f%.v}"; rm -f "$b.vo" "$b.glob" "$b.vok" "$b.vos" ".$b.aux"
+done
+srcs=""
+for m in model_*.ml; do srcs="$srcs ${m%.ml}.mli $m"; done
+ocamlfind ocamlopt -O3 -w -a $srcs registry.ml drv_*.ml driver.ml -o "$out" 2>/dev/null || ocamlfind ocamlopt -w -a $srcs registry.ml drv_*.ml driver.ml -o "$out"
 rm -f *.cmi *.cmx *.o
